@@ -16,6 +16,8 @@ NOT_DECIDED = "equality of the parse results over all splits of all messages (ru
 
 
 def check(ctx):
+    _http.last_chunk_consumes_terminator(ctx, "T1-lastchunk")
+    _http.driver_resumes_every_call(ctx, "T2-driver")
     ctx.rule("T1-consume", "buffer bytes deleted only after a complete unit; yield None leaves the buffer untouched")
     ctx.rule("D-unpack", "no fixed-arity unpack of str.split in the parse call graph unless guarded by `sep in text`")
     ctx.rule("T9-colon", "parseLeader splits header lines at the first ':' and strips optional whitespace")
@@ -43,6 +45,8 @@ def check(ctx):
         (bool(_re.search(r"\.split\(':', 1\)", t)) and ".strip()" in t and bool(_re.search(r"':' in \w+", t)))
     ctx.check(ok, "T9-colon", pl, "parseLeader: key, sep, value = line.partition(':'); strip both", "header lines with or without whitespace after the colon must parse")
     for fname in ("parseLine", "parseLeader"):
+        if fname != "parseLine" and _http.delegates_to_parseLine(ctx, fname):
+            continue
         f, h, ok, why = _http.eol_selection(ctx, fname)
         ctx.check(ok, "T9-eol", h.ast, "%s selects the earliest end of line" % fname,
                   "%s: a line ending that occurs earlier in the buffer but is tried later in the eols tuple is skipped, so the "
